@@ -92,7 +92,7 @@ def run_batch(check, tier, seed, runs, workers, wall, digests=False, scratch=Non
            "n_ops": 0, "digests": [], "n_nontrivial": 0, "per_machine": {}, "violations_dropped": 0}
     herrs = []
     for w, p in enumerate(procs):
-        r, err = collect(p, wall + 180)
+        r, err = collect(p, wall + 420)
         if r is None:
             herrs.append("worker %d: %s" % (w, err))
             continue
